@@ -24,6 +24,10 @@ RULE = ("generated: old text of 0-14 lines over a 14-line alphabet (plain lines,
         "delete / truncation / final-newline flip of old against the diff. "
         "enumerated: all pairs of sequences of <= 3 (quick) / 5 (thorough) lines "
         "over 3 lines with both final-newline variants x context 0..3 (0..5). "
+        "Labels: plain, 'path<TAB>date', with spaces, non-ASCII, /dev/null (names "
+        "and timestamps must survive parse and re-serialisation). 'long': texts "
+        "of 8-12 / 98-102 / 120 lines edited around lines 9/10 and 99/100 "
+        "(header digit counts change), truncations at every hunk edge. "
         "Non-trivial: diff with >= 2 hunks or a no-newline marker (perturbed: "
         "additionally at least one perturbation that must conflict and one that "
         "must apply). Distinct by case hash / by construction (enumeration).")
@@ -161,12 +165,33 @@ def _matcher(name):
     return patiencediff.PatienceSequenceMatcher
 
 
-def make_diff(old, new, ctx, matcher):
+# (old label, new label) as callers pass them: show_diff_trees writes
+# "path<TAB>date"; a label may hold spaces and non-ASCII characters
+LABELS = [
+    ("old", "new"),
+    ("a/dir/f.txt\t2010-01-01 00:00:00 +0000",
+     "b/dir/f.txt\t2010-01-02 12:34:56 -0330"),
+    ("old name with spaces", "new name with spaces\t1970-01-01 00:00:00 +0000"),
+    ("d\u00e4r/\u00e4\t2010-01-01 00:00:00 +0000", "d\u00e4r/\u00e4"),
+    ("/dev/null", "new@@file"),
+]
+
+
+def make_diff(old, new, ctx, matcher, labels=0):
     from breezy import diff
     out = io.BytesIO()
-    diff.internal_diff("old", list(old), "new", list(new), out,
+    ol, nl = LABELS[labels]
+    diff.internal_diff(ol, list(old), nl, list(new), out,
                        context_lines=ctx, sequence_matcher=_matcher(matcher))
     return out.getvalue()
+
+
+def _name_ts(label):
+    b = label.encode("utf8")
+    if b"\t" in b:
+        name, ts = b.split(b"\t")
+        return name, ts
+    return b, None
 
 
 def hunk_key(h):
@@ -182,12 +207,12 @@ def _show(old, new, ctx, extra=None):
     return d
 
 
-def roundtrip(old, new, ctx, matcher):
+def roundtrip(old, new, ctx, matcher, labels=0):
     """All laws on the unperturbed pair. -> (diff bytes, ref hunks) ; d == b''
     when the texts are equal."""
     from breezy import diff, patches
-    d = make_diff(old, new, ctx, matcher)
-    info = _show(old, new, ctx)
+    d = make_diff(old, new, ctx, matcher, labels)
+    info = _show(old, new, ctx, {"labels": labels} if labels else None)
     if old == new:
         check(d == b"", "C39/equal-texts-nonempty-diff", [info, b2s(d)])
         return d, []
@@ -218,8 +243,13 @@ def roundtrip(old, new, ctx, matcher):
     k2 = [hunk_key(h) for h in p2.hunks]
     check(k1 == k2, "C39/reserialised-diff-parses-to-different-hunks",
           [info, b2s(d), b2s(ser)])
-    check((p2.oldname, p2.newname) == (p.oldname, p.newname),
+    check((p2.oldname, p2.newname, p2.oldts, p2.newts) ==
+          (p.oldname, p.newname, p.oldts, p.newts),
           "C39/reserialised-diff-names-differ", [info, b2s(ser)])
+    want_names = _name_ts(LABELS[labels][0]) + _name_ts(LABELS[labels][1])
+    check((p.oldname, p.oldts, p.newname, p.newts) == want_names,
+          "C39/parsed-names-differ-from-labels",
+          [info, [repr(x) for x in (p.oldname, p.oldts, p.newname, p.newts)]])
     check(p2.as_bytes() == ser, "C39/reserialisation-not-idempotent",
           [info, b2s(ser)])
     # statistics
@@ -330,7 +360,7 @@ def _case_texts(case):
 
 def run_pair(case, env):
     old, new, ctx, matcher = _case_texts(case)
-    d, rh = roundtrip(old, new, ctx, matcher)
+    d, rh = roundtrip(old, new, ctx, matcher, case.get("labels", 0))
     if not rh:
         return trivial()
     lab = label_of(d, rh)
@@ -459,9 +489,71 @@ def gen_pair(draw, max_len=14):
         return [b2s(x) for x in lines]
 
     return {"old": finish(old), "new": finish(new),
-            "ctx": draw(st.sampled_from([0, 0, 0, 1, 1, 1, 2, 2, 3, 4, 5])),
+            "ctx": draw(st.sampled_from([0, 0, 0, 1, 1, 1, 2, 2, 3, 4, 5, 20])),
             "matcher": draw(st.sampled_from(["patience", "patience",
-                                             "difflib"]))}
+                                             "difflib"])),
+            "labels": draw(st.sampled_from([0, 0, 0, 1, 2, 3, 4]))}
+
+
+LONG_SIZES = [8, 9, 10, 11, 12, 98, 99, 100, 101, 102, 120]
+
+
+@st.composite
+def gen_long(draw):
+    """Texts whose hunk positions / ranges cross 9/10 and 99/100 (the number
+    of digits in the hunk headers changes there)."""
+    n = draw(st.sampled_from(LONG_SIZES))
+    old = [b"line %03d\n" % i for i in range(n)]
+    for _ in range(draw(st.integers(0, 3))):          # some repeated lines
+        old[draw(st.integers(0, n - 1))] = b"same\n"
+    new = list(old)
+    anchors = [0, 1, 8, 9, 10, 11, 97, 98, 99, 100, 101, n - 2, n - 1, n]
+    for _ in range(draw(st.integers(1, 4))):
+        pos = min(max(draw(st.sampled_from(anchors)) +
+                      draw(st.integers(-1, 1)), 0), len(new))
+        op = draw(st.sampled_from(["insert", "insert-block", "delete",
+                                   "delete-block", "replace"]))
+        k = draw(st.sampled_from([1, 2, 9, 10, 11])) if "block" in op else 1
+        if op.startswith("insert") or pos >= len(new):
+            new[pos:pos] = [b"new %d\n" % j for j in range(k)]
+        elif op.startswith("delete"):
+            del new[pos:pos + k]
+        else:
+            new[pos] = b"changed\n"
+    if draw(st.integers(0, 4)) == 0 and new:
+        new[-1] = new[-1][:-1]
+    if draw(st.integers(0, 6)) == 0:
+        old[-1] = old[-1][:-1]
+    return {"old": [b2s(x) for x in old], "new": [b2s(x) for x in new],
+            "ctx": draw(st.sampled_from([0, 0, 1, 2, 3, 10])),
+            "matcher": draw(st.sampled_from(["patience", "difflib"])),
+            "labels": draw(st.sampled_from([0, 1]))}
+
+
+def run_long(case, env):
+    old, new, ctx, matcher = _case_texts(case)
+    d, rh = roundtrip(old, new, ctx, matcher, case.get("labels", 0))
+    if not rh:
+        return trivial()
+    dl = split_nl(d)
+    info = _show(old[:2], new[:2], ctx, {"long": len(old)})
+    # truncations around every hunk start / end
+    known = None
+    n = 1
+    for opos, orng, _mp, _mr, _body in rh:
+        for k in (opos - 2, opos - 1, opos, opos + orng - 1):
+            if 0 <= k < len(old):
+                _res, kn = apply_perturbed(old[:k], dl, rh, info,
+                                           ["truncate", k, None])
+                known = known or kn
+                n += 1
+    if known is not None:
+        return violation(KNOWN_EOF, known, label="long")
+    digits = set(len(str(x)) for h in rh for x in (h[0], h[2]))
+    if len(rh) >= 2 or len(digits) >= 2:
+        return ok("long/%s" % ("multi-hunk" if len(rh) >= 2 else "one-hunk"),
+                  n=n)
+    return ok(None, n=n)
 
 
 def kinds(tier):
@@ -472,4 +564,6 @@ def kinds(tier):
              examples={"quick": 20000, "thorough": 600000}),
         Kind("perturbed", run_perturbed, strategy=gen_pair(max_len=10),
              examples={"quick": 4000, "thorough": 150000}),
+        Kind("long", run_long, strategy=gen_long(),
+             examples={"quick": 1500, "thorough": 60000}),
     ]
